@@ -30,7 +30,9 @@ def market_inv(st, m, series=True, skip=()):
     cs += [("M1 two distinct books, buy and sell, on the market clock",
             z3.And(bb.term != sb.term, st.read(bb, "is_buy").term, z3.Not(st.read(sb, "is_buy").term), st.read(bb, "time").term == t, st.read(sb, "time").term == t))]
     cs += book_inv(st, bb, "buy:") + book_inv(st, sb, "sell:")
-    cs += [("M2 the lists of the two books are separate objects", book_list_refs_disjoint(st, bb, sb)),
+    d = book_list_refs_disjoint(st, bb, sb)
+    cs += [(f"M2 the lists of the two books are separate objects ({w})", d.arg(i)) for i, w in enumerate(("queues", "expiry maps", "buy buckets vs sell queue", "sell buckets vs buy queue", "buckets"))]
+    cs += [
            ("M3 resting orders belong to this market and carry ids below the next id",
             z3.ForAll([x], z3.Implies(z3.Or(st.mem(qB, x), st.mem(qS, x)), z3.And(O(st, "market_id")[x] == st.read(m, "market_id").term,
                                                                                      O(st, "order_id")[x] < st.read(m, "_next_order_id").term)))),
@@ -170,7 +172,8 @@ def fu_pre(st, a):
     nmid = st.length(series_ref(st, m, "_mid_prices"), ("real",))
     return [("chunk size positive", st.read(m, "chunk_size").term > 0), ("time >= 0", a["time"].term >= 0),
             ("the eight series are distinct lists, none shorter than the mid-price series",
-             z3.And(z3.Distinct(*refs), nmid >= 0, *[st.length(r, ety) >= nmid for (nm, ety), r in zip(SERIES, refs)]))]
+             z3.And(z3.Distinct(*refs), nmid >= 0, *[st.length(r, ety) >= nmid for (nm, ety), r in zip(SERIES, refs)])),
+            ("the eight series are allocated lists", z3.And(*[st.is_alloc(r) for r in refs]))]
 
 
 def series_prefix_kept(st0, st1, m, upto=None):
@@ -202,6 +205,7 @@ def fu_post(st0, st1, a, res):
         cs.append((f"{nm}: new slots are empty (None / 0)", z3.ForAll([i], z3.Implies(z3.And(n0 <= i, i < n1), fresh_slot))))
         cs.append((f"{nm}: storage is either the old list or a new object", z3.Or(r1 == r0, z3.Not(st0.is_alloc(r1)))))
     cs.append(("the eight series stay distinct lists", z3.Distinct(*series_refs(st1, m))))
+    cs.append(("the eight series are allocated lists", z3.And(*[st1.is_alloc(r) for r in series_refs(st1, m)])))
     return cs + series_prefix_kept(st0, st1, m)
 
 
@@ -248,6 +252,7 @@ def ut_pre(st, a):
     bb, sb = books(st, m)
     return inv + [("M1' two distinct books, buy and sell", z3.And(bb.term != sb.term, st.read(bb, "is_buy").term, z3.Not(st.read(sb, "is_buy").term))),
                   ("clock shape (pre-first-tick or lock-step)", clock_shape(st, m)), ("series are distinct lists", z3.Distinct(*series_refs(st, m))),
+                  ("series are allocated lists", z3.And(*[st.is_alloc(r) for r in series_refs(st, m)])),
                   ("slots after the current time are still empty", future_empty(st, m, st.read(m, "time").term)),
                   ("chunk size positive", st.read(m, "chunk_size").term > 0)]
 
